@@ -369,6 +369,111 @@ def seq_correspondence(run, harness, mode, label, args, corpus_files=(), overlay
 
 
 # --------------------------------------------------------------------------------------------------
+# controlled-scheduler exploration (real code under the cooperative scheduler; linearizability decided by
+# the Lean driver against Spec; other monitors in the Go harness)
+
+def parse_hists(path):
+    """hist.txt -> {id: [lines]}"""
+    hs, cur, cid = {}, None, None
+    for l in read_lines(path):
+        if l.startswith("hist "):
+            cid = l.split()[1]
+            cur = [l]
+        elif cur is not None:
+            cur.append(l)
+            if l == "end":
+                hs[cid] = cur
+                cur = None
+    return hs
+
+
+def overlapping(lines):
+    ivs = []
+    for l in lines:
+        if l.startswith("op "):
+            f = l.split()
+            ivs.append((int(f[2]), int(f[3]), f[1]))
+    for i in range(len(ivs)):
+        for j in range(i + 1, len(ivs)):
+            a, b = ivs[i], ivs[j]
+            if a[2] != b[2] and a[0] < b[1] and b[0] < a[1]:
+                return True
+    return False
+
+
+def sched_exploration(run, harness, label, args, tags, lin=True):
+    """returns True if nothing relevant was found.  tags: monitor prefixes that belong to this property."""
+    d = os.path.join(run.work, label)
+    os.makedirs(d, exist_ok=True)
+    rc, o, e = sh([harness, "sched", "out=" + d] + args, timeout=3000)
+    if rc != 0:
+        sig = "%s: scheduler harness crashed" % label
+        path = write_replay(run, label + "_crash", {"kind": "harness-crash", "cmd": ["sched"] + args, "stderr": e[-4000:]})
+        run.violations.append((sig, path, True, sig + ": " + (e.strip().splitlines()[-1] if e.strip() else str(rc))))
+        return False
+    hists = parse_hists(os.path.join(d, "hist.txt"))
+    verdict = {}
+    if lin:
+        with open(os.path.join(d, "hist.txt"), "rb") as fin:
+            p = subprocess.run([DRIVER, "--lin"], stdin=fin, stdout=subprocess.PIPE, stderr=subprocess.PIPE, timeout=3000)
+        for l in p.stdout.decode().splitlines():
+            f = l.split(None, 2)
+            if len(f) >= 2:
+                verdict[f[0]] = " ".join(f[1:])
+    mons = {}
+    steps = 0
+    for l in read_lines(os.path.join(d, "monitors.txt")):
+        if l.startswith("#"):
+            m = re.search(r"(\d+) scheduled steps", l)
+            if m:
+                steps = int(m.group(1))
+            continue
+        hid, msg = l.split(" ", 1)
+        mons.setdefault(hid, []).append(msg)
+    run.cov["evaluations"] += len(hists)
+    run.cov["transitions_scheduled"] = run.cov.get("transitions_scheduled", 0) + steps
+    run.cov["traces_validated_against_impl"] += len(hists)
+    seen = run.cov.setdefault("_seen", set())
+    for hid, lines in hists.items():
+        if overlapping(lines):
+            seen.add(hashlib.sha1("\n".join(l for l in lines[1:] if not l.startswith("final")).encode()).hexdigest())
+        for l in lines:
+            if l.startswith("op "):
+                k = l.split(" | ")[1].split()[0]
+                run.cov["op_histogram"][k] = run.cov["op_histogram"].get(k, 0) + 1
+    if hists and len(run.cov["samples"]) < 4:
+        k = sorted(hists, key=int)[min(3, len(hists) - 1)]
+        run.cov["samples"].append({"run": label, "history": hists[k][:14]})
+    run.cov["runs"].append({"label": label, "schedules": len(hists), "scheduled_steps": steps,
+                            "nonlinearizable": sum(1 for v in verdict.values() if not v.startswith("OK"))})
+    ok = True
+    reported = set()
+    for hid in sorted(hists, key=int):
+        probs = []
+        if lin and "NONLIN" in tags and not verdict.get(hid, "OK").startswith("OK"):
+            probs.append(verdict[hid])
+        for m in mons.get(hid, []):
+            if any(m.startswith(t) for t in tags):
+                probs.append(m)
+        if not probs:
+            continue
+        ok = False
+        tag = probs[0].split(":")[0].split()[0]
+        # one report per (label, tag, first op kinds) is enough
+        ops = sorted(set(l.split(" | ")[1].split()[0] for l in hists[hid] if l.startswith("op ")))
+        sig = "%s:%s:%s" % (label.rsplit("_s", 1)[0], tag, "+".join(ops))
+        if (label, tag) in reported:
+            continue
+        reported.add((label, tag))
+        path = write_replay(run, "%s_%s" % (label, tag), {
+            "kind": "schedule", "what": "history of the real code under the controlled scheduler that violates the property",
+            "problems": probs, "history": hists[hid], "harness_args": args, "history_id": hid, "overlay": "sched",
+            "replay_cmd": "./check %s --replay <this file>" % run.pid})
+        run.violations.append((sig, path, True, "%s %s" % (label, "; ".join(probs)[:300])))
+    return ok
+
+
+# --------------------------------------------------------------------------------------------------
 # known findings, evidence, reporting
 
 def load_known():
